@@ -1,12 +1,12 @@
 /// Test generated for harness `app::parse::bytes::verif_kani_c09_bytes::vk_c09_ranged_bytes_iter_any_start` 
 ///
-/// Check for `cover`: "cover condition: start == 0"
+/// Check for `assertion`: "attempt to add with overflow"
 
 #[test]
-fn kani_concrete_playback_vk_c09_ranged_bytes_iter_any_start_2176561667303762940() {
+fn kani_concrete_playback_vk_c09_ranged_bytes_iter_any_start_7997156750416321088() {
     let concrete_vals: Vec<Vec<u8>> = vec![
-        // 0
-        vec![0, 0],
+        // 65534
+        vec![254, 255],
         // 0
         vec![0],
         // 0
